@@ -12,7 +12,7 @@ BOUNDS = {
              "symbolic multiplicities >= 1): add of two operands (all size pairs, py and pyx) and of three; "
              "integral/avrg over None, one symbolic interval a < b and two intervals; plottable data with smoothing "
              "window k in {0,1,2} for every assignment of multiplicities from {1,2} (<= 3 events)",
-    "thorough": "0..4 events per operand; smoothing with <= 4 events",
+    "thorough": "0..5 events per operand; smoothing with <= 4 events",
 }
 OUTSIDE = "more events; multiplicities other than {1,2} in the smoothing window; float rounding"
 ASSUMPTIONS = ["operands satisfy the representation the kernels produce: x[0]=t_start, x[-1]=t_end, event times "
@@ -22,12 +22,12 @@ ASSUMPTIONS = ["operands satisfy the representation the kernels produce: x[0]=t_
 
 
 def configs(tier):
-    n = 3 if tier == "quick" else 4
+    n = 3 if tier == "quick" else 5
     for be in ("py", "pyx"):
         for n1 in range(n + 1):
             for n2 in range(n + 1):
                 yield dict(name="add-%s-%d+%d" % (be, n1, n2), what="add", backend=be, ns=[n1, n2],
-                           cost=4 ** (n1 + n2))
+                           cost=4 ** (n1 + n2), split_forks=(8 if n1 + n2 >= 7 else None))
         for ns in [(1, 1, 1), (2, 1, 1), (0, 2, 1), (1, 0, 2), (2, 2, 1)] + ([(2, 2, 2), (3, 2, 1)] if tier != "quick" else []):
             yield dict(name="add3-%s-%s" % (be, "+".join(map(str, ns))), what="add", backend=be, ns=list(ns),
                        cost=5 ** sum(ns), split_forks=(6 if sum(ns) >= 5 else None))
